@@ -95,6 +95,10 @@ var (
 
 const nSpell = 9
 
+// spellTable makes the canonical spelling (the only one that reaches the
+// route's own handler chain) about half of the sampled shapes.
+var spellTable = []int{0, 4, 0, 6, 0, 5, 1, 0, 2, 0, 3, 0, 7, 0, 8, 0}
+
 // spell returns the request target for pattern p in spelling k.
 func spell(p string, k int) string {
 	if p == "/" {
@@ -395,6 +399,7 @@ func (s *sim) probe(r *route, sh Shape) error {
 		// A dead cookie next to correct basic credentials: the statement
 		// allows the handler to run, it does not require it.
 		authn = "open"
+		s.c.Probe("dead_cookie_with_right_basic")
 	}
 
 	// Which pattern the mux will dispatch to (only for a canonical path:
@@ -408,7 +413,7 @@ func (s *sim) probe(r *route, sh Shape) error {
 			}
 		}
 	}
-	install := strings.HasPrefix(eff, "/control/install/") || eff == "/install.html"
+	install := strings.HasPrefix(hit, "/control/install/") || hit == "/install.html"
 
 	// Never let a real handler with side effects or network I/O run: with
 	// credentials that (may) pass, only send what the statement says is
@@ -475,6 +480,16 @@ func (s *sim) probe(r *route, sh Shape) error {
 		s.c.Probe("public_route_request")
 	case authn == "no":
 		loginRedirect := resp.Code == http.StatusFound && (eff == "/" || eff == "/index.html") && strings.HasSuffix(resp.Location, "/login.html")
+		if resp.Code != http.StatusForbidden && !loginRedirect && !canonical && isPublic(raw) {
+			// CONNECT is dispatched on the raw path.  The raw path looks like a
+			// static asset to the auth middleware although it normalises to a
+			// protected path.
+			v := kernel.Violationf("unauth-connect-raw-path-taken-for-asset", "%s: the path normalises to %q, which is not public, yet the request passed the auth middleware (it matches the public-resource pattern textually) and the static file server answered %d location=%q", desc, eff, resp.Code, resp.Location)
+			if !s.c.Tolerate(v) {
+				return v
+			}
+			return nil
+		}
 		if resp.Code != http.StatusForbidden && !loginRedirect {
 			return kernel.Violationf("unauth-not-refused", "%s: no valid session and no correct credentials, expected 403 (or 302 to the login page for / and /index.html), got %d location=%q; registered at %s", desc, resp.Code, resp.Location, relLoc(s.routeLoc(hit)))
 		}
@@ -488,9 +503,6 @@ func (s *sim) probe(r *route, sh Shape) error {
 		}
 		if ck == ckLoggedOut {
 			s.c.Probe("logged_out_cookie_refused")
-		}
-		if ck != ckNone && ba == baRight {
-			s.c.Probe("dead_cookie_with_right_basic")
 		}
 	case expectAuth != 0:
 		unauthOK := authn == "open" && resp.Code == http.StatusForbidden
@@ -684,7 +696,7 @@ func Gen(t *rapid.T, tier string) any {
 			Body:   rapid.IntRange(0, len(bodies)-1).Draw(t, "body"),
 			Cookie: rapid.IntRange(0, nCookie-1).Draw(t, "cookie"),
 			Basic:  rapid.IntRange(0, nBasic-1).Draw(t, "basic"),
-			Spell:  rapid.IntRange(0, nSpell-1).Draw(t, "spell"),
+			Spell:  rapid.SampledFrom(spellTable).Draw(t, "spell"),
 		})
 	}
 	return sc
@@ -712,5 +724,5 @@ var Prop = &kernel.Property{
 		"a route is covered if it is on the real mux after the real registration code has run; the space of source programs is not enumerated",
 	},
 	FaultKinds: []string{"clean_restart", "process_crash", "clock_past_session_ttl"},
-	ProbeNames: []string{"request", "non_canonical_spelling", "mux_redirect_to_canonical_path", "install_route_forbidden", "public_route_request", "unauth_forbidden", "unauth_redirected_to_login", "expired_cookie_refused", "logged_out_cookie_refused", "dead_cookie_with_right_basic", "auth_wrong_method_405", "auth_non_json_415", "auth_positive_control_200", "authenticated_static_or_fallthrough", "connect_non_canonical", "skipped_authenticated_handler_would_run", "skipped_authenticated_no_declared_method", "state_digest_compared", "route_registered_directly_on_mux", "route_on_mux_not_in_source_scan", "route_product_completed"},
+	ProbeNames: []string{"request", "non_canonical_spelling", "mux_redirect_to_canonical_path", "install_route_forbidden", "public_route_request", "unauth_forbidden", "unauth_redirected_to_login", "expired_cookie_refused", "logged_out_cookie_refused", "dead_cookie_with_right_basic", "auth_wrong_method_405", "auth_non_json_415", "auth_positive_control_200", "authenticated_static_or_fallthrough", "connect_non_canonical", "skipped_authenticated_handler_would_run", "skipped_authenticated_no_declared_method", "state_digest_compared", "route_registered_directly_on_mux"},
 }
